@@ -4,7 +4,9 @@ Spec: spec/RotoSem.tla (+ BitVec.tla, Dyadic.tla), bound by TraceSem.tla.
 Every native execution of a compiled script - (1) one program per (type, operator) over all pairs of
 boundary operands for the 8 integer types, both float types and bool, incl. compound assignment and
 unary minus; (2) literal typing programs (suffixes, context-fixed types, default i32/f64, f32
-rounding); (3) seeded random programs over the core language with nested expressions, blocks, if,
+rounding, the minimum of a signed type written as the negation of a literal); (3) the match matrix (enums with 2..5
+variants, every single variant / pair of variants named in the arms + `_`, guarded arms and guarded `_` arms, every
+variant as examinee); (4) seeded random programs over the core language with nested expressions, blocks, if,
 match, while, for, early return and (recursive) calls - is recorded (program AST, host inputs,
 result, host-call log) and validated by TLC: accepted iff RotoSem.Eval gives that result and log.
 """
@@ -17,7 +19,8 @@ CORE = ["ints", "bool", "float", "char", "loops", "calls", "recfn", "ret", "enum
 
 def run(tier):
     fam = [("core", CORE, 3, 250, 4000, 2), ("arith", ["ints", "bool", "float", "loops", "calls", "recfn", "ret"], 4, 150, 2500, 3)]
-    extra = [("matrix", semlib.matrix_cases(tier)), ("literals", semlib.literal_cases())]
+    extra = [("matrix", semlib.matrix_cases(tier)), ("literals", semlib.literal_cases()), ("match", semlib.match_cases()),
+             ("negmin", semlib.negmin_cases(), True)]
     return semlib.run_sem_check(
         PID, tier, fam,
         rule=("cases = recorded native executions (program, inputs); families: operator matrix (type x operator x "
